@@ -25,6 +25,30 @@ LEAN_MODULES = ["LenaModel.Props.C09"]
 LEAN_SOURCES = ["LenaModel/Model/C09.lean", "LenaModel/Props/C09.lean"]
 DRIVER = "drivers/C09.lean"
 THEOREMS = [
+    # generic: histories
+    "Lena.C09.reset_bisimilar",
+    # Count / Sum / StoreFilled / GroupBy
+    "Lena.C09.Ctx.get_set", "Lena.C09.count_compute_spec", "Lena.C09.count_reset_fresh",
+    "Lena.C09.sum_compute_spec", "Lena.C09.sum_reset_fresh",
+    "Lena.C09.store_compute_spec", "Lena.C09.store_reset_fresh",
+    "Lena.C09.groupby_compute_spec", "Lena.C09.groupby_one_key", "Lena.C09.groupby_reset_fresh",
+    # DSum: exactness
+    "Lena.C09.Dec.add_toRat", "Lena.C09.Dec.ofDy_toRat", "Lena.C09.DSum.addLoop_total", "Lena.C09.DSum.addLoop_prec",
+    "Lena.C09.DSum.addLoop_prec_minimal", "Lena.C09.dsum_exact", "Lena.C09.dsum_reset_fresh",
+    # Mean / VarianceMeanCount
+    "Lena.C09.mean_compute_spec", "Lena.C09.mean_reset_fresh",
+    "Lena.C09.meand_compute_spec", "Lena.C09.meand_reset_fresh",
+    "Lena.C09.vmc_compute_spec", "Lena.C09.vmc_is_sample_variance", "Lena.C09.vmc_is_population_variance",
+    "Lena.C09.vmc_yields_sample_variance", "Lena.C09.vmc_yields_population_variance", "Lena.C09.vmc_reset_fresh",
+    # Vectorize
+    "Lena.C09.vec_compute_spec", "Lena.C09.vec_sum_compute_spec", "Lena.C09.zipLongest_row",
+    "Lena.C09.vec_reset_fresh", "Lena.C09.vec_sum_reset_fresh", "Lena.C09.vec_mean_reset_fresh",
+    # Histogram
+    "Lena.C09.binIndex_spec", "Lena.C09.hist_compute_spec", "Lena.C09.hist_conservation",
+    "Lena.C09.hist_reset_is_init", "Lena.C09.hist_reset_fresh",
+    # Graph
+    "Lena.C09.graph_compute_spec", "Lena.C09.graph_points", "Lena.C09.graph_reset_is_init",
+    "Lena.C09.graph_reset_fresh", "Lena.C09.graph_pinned_reset_not_fresh",
 ]
 TRUSTED = [
     "Lean 4.33.0 kernel; axioms limited to propext, Classical.choice, Quot.sound (audited by #print axioms on every run)",
@@ -47,13 +71,15 @@ ASSUMPTIONS = [
     "for one-dimensional histograms; two-dimensional histograms are checked by the direct oracle only",
     "Decimal(float) is the exact decimal expansion of the float (Dec.ofDy); Emax/Emin of the decimal context are not reached",
 ]
-RULE = ("per element configuration (Count, Sum, DSum, Mean[None|Sum()|DSum()], VarianceMeanCount, Vectorize[Sum|Count|Mean|"
-        "VarianceMeanCount|StoreFilled, dim 1..3, list form], StoreFilled, GroupBy[default|group_by|merge], Histogram[1-d, "
-        "initial bins, make_bins, initial_value; 2-d oracle only], Graph[scale, sort]): EVERY history of up to 4 calls over "
-        "{fill(v1), fill(v2), compute, reset} (quick: up to 3 for the larger configuration families), plus seeded random "
-        "histories fill* (compute|reset|fill)* of up to 12 calls with ints, exactly summable floats of mixed magnitude, "
-        "(data, context) pairs; DSum with arbitrary floats (denormals to 1e308, cancelling pairs, huge ints). "
-        "Non-trivial: at least two fills and a compute that yields something.")
+RULE = ("per element configuration (48 of them: Count, Sum, DSum, Mean[None|Sum()|DSum()], VarianceMeanCount, Vectorize[Sum|"
+        "Count|Mean|VarianceMeanCount|StoreFilled, dim 1..3, list form, short and long data vectors], StoreFilled, GroupBy["
+        "default|group_by|merge], Histogram[1-d, initial bins, make_bins, initial_value; 2-d by the oracle only], Graph[scale, "
+        "sort]): EVERY history of up to 4 calls (thorough: up to 5 for the single-accumulator families) over {fill(v1), "
+        "fill(v2), compute, reset}; construction argument checks of Histogram and Vectorize; a regression corpus; plus seeded "
+        "random histories fill* (compute|reset|fill)* of up to 12 calls (quick 12 000, thorough 300 000) with ints (up to "
+        "1e30 for Sum), exactly summable floats of mixed magnitude (multiples of 2**-k, k up to 20), (data, context) pairs "
+        "with flat and nested contexts; DSum and Mean(DSum()) with arbitrary floats (denormals to 1e308, cancelling pairs, "
+        "huge ints).  Non-trivial: a construction error, or at least two fills and a compute that yields something.")
 CASE_TIMEOUT = 10
 
 
@@ -306,8 +332,6 @@ def model_requests(case):
     spec, sh = case["el"], case.get("sh", 0)
     k = spec["k"]
     tab = _leaf_table(case)
-    if k == "mean" and spec["seq"] == "dsum":
-        return []
     if k == "hist" and spec.get("md"):
         return []
     if k == "count":
@@ -318,6 +342,8 @@ def model_requests(case):
         t0 = decimal.Decimal(_num(spec["total0"])).as_tuple()
         coef = int("".join(map(str, t0.digits))) * (-1 if t0.sign else 1)
         el = {"k": "dsum", "total0": [coef, t0.exponent]}
+    elif k == "mean" and spec["seq"] == "dsum":
+        el = {"k": "meand", "poe": spec["poe"]}
     elif k in ("mean", "vmc", "store"):
         el = _m_spec(spec)
     elif k == "groupby":
@@ -343,7 +369,7 @@ def model_requests(case):
         if op[0] == "f":
             v = op[1]
             mv = {"c": _m_ctx(v.get("c"), tab)}
-            if k == "dsum":
+            if k == "dsum" or (k == "mean" and spec["seq"] == "dsum"):
                 mv["d"] = _dyadic(v["d"])
             elif k == "vec":
                 mv["d"] = [_scaled(x, sh) for x in v["d"]]
@@ -455,7 +481,11 @@ def _conv_out(kind, spec, e, sh, tab, m):
         md = m.get("d") if isinstance(m, dict) else None
         if not (isinstance(md, list) and len(md) == 2):
             raise _Mismatch(f"model output {m} is not a mean")
-        ref = _rdiv(md[0], md[1] << sh)
+        if spec.get("seq") == "dsum":
+            n = m.get("__n")           # float(Decimal total) / float(count): two roundings
+            ref = float(Fraction(md[0], md[1]) * n) / float(n)
+        else:
+            ref = _rdiv(md[0], md[1] << sh)
         if not (isinstance(d, dict) and "fl" in d and float.fromhex(d["fl"]) == ref):
             raise _Mismatch(f"mean {d} is not the rounded value {ref.hex()} of the model's {md[0]}/{md[1]} / 2**{sh}")
         r = {"d": md}
@@ -573,12 +603,19 @@ def compare(case, res, replies):
         ys, zs = a["c"], b["c"]
         if len(ys) != len(zs):
             return f"op {i} compute: impl yields {len(ys)} values {ys} vs model {zs}"
+        nfill = 0
+        for op2 in case["ops"][:i]:
+            nfill = nfill + 1 if op2[0] == "f" else (0 if op2[0] == "r" else nfill)
         for y, z in zip(ys, zs):
+            if kind == "mean" and isinstance(z, dict):
+                z = dict(z, __n=nfill)
             try:
                 cy = _conv_out(kind, spec, y, sh, tab, z)
             except _Mismatch as e:
                 return f"op {i} compute: {e} (impl {y}, model {z})"
             cz = _norm_model(kind, spec, z)
+            if isinstance(cz, dict):
+                cz = {kk: vv for kk, vv in cz.items() if kk != "__n"}
             if cy != cz:
                 return f"op {i} compute: impl {cy} vs model {cz}"
     if kind == "dsum" and res.get("prec") != m.get("prec"):
@@ -1164,7 +1201,15 @@ def _rand_case(rng, maxlen):
             return {"d": _mknum(x), "c": ctx()}
     elif kind == "mean":
         spec = {"k": "mean", "seq": rng.choice([None, "sum", "dsum"]), "poe": rng.random() < 0.4}
-        mk = lambda: {"d": _rand_num(rng, sh, rng.choice([4, 20, 40 - sh])), "c": ctx()}
+        if spec["seq"] == "dsum" and rng.random() < 0.6:
+            sh = 0
+
+            def mk():       # floats of mixed magnitude (no overflow / underflow of the mean)
+                x = (rng.random() + 1.0) * 2.0 ** rng.choice([rng.randint(-200, 200), rng.randint(-8, 8)])
+                x = -x if rng.random() < 0.5 else x
+                return {"d": _mknum(x if rng.random() < 0.8 else rng.randint(-10 ** 20, 10 ** 20)), "c": ctx()}
+        else:
+            mk = lambda: {"d": _rand_num(rng, sh, rng.choice([4, 20, 40 - sh])), "c": ctx()}
     elif kind == "vmc":
         sh = min(sh, 10)
         spec = {"k": "vmc", "corrected": rng.random() < 0.6, "poe": rng.random() < 0.4}
@@ -1243,10 +1288,10 @@ def gen_cases(ctx):
     for spec, sh, (v1, v2) in _specs_small():
         alphabet = [["f", v1], ["f", v2], ["c"], ["r"]]
         big = spec["k"] in ("vec", "mean", "vmc")
-        depth = (3 if big else 4) if quick else (4 if big else 5)
+        depth = 4 if quick else (4 if big else 5)
         for h in _all_histories(alphabet, depth):
             cases.append({"el": spec, "ops": h, "sh": sh})
-    n = 2500 if quick else 120000
+    n = 12000 if quick else 300000
     for _ in range(n):
         cases.append(_rand_case(rng, 12))
     ctx.exhaustive = False
